@@ -35,7 +35,7 @@ type Options struct {
 }
 
 const (
-	simrtImport   = "verifharness/simrt"
+	simrtImport     = "verifharness/simrt"
 	simsyncImport   = "verifharness/simsync"
 	simatomicImport = "verifharness/simatomic"
 )
